@@ -140,6 +140,7 @@ func TestResponderRetransmits(t *testing.T) {
 			"streams + unbound/non-NACK streams, interleaved with NACKs (sent, never-sent, evicted, foreign numbers, repeats), Unbind and re-bind; buffer sizes 1..32768, "+
 			"RTX on/off, DisableCopy; quiescence after every RTCP read; non-trivial = a NACK answered after >= 1 eviction; distinct by history")
 	rapid.Check(t, func(t *rapid.T) {
+		kit.Idle()
 		sizeExp := rapid.OneOf(rapid.IntRange(0, 15), rapid.IntRange(0, 5)).Draw(t, "sizeExp")
 		size := 1 << sizeExp
 		rtx := rapid.Bool().Draw(t, "rtx")
